@@ -55,11 +55,14 @@ func n2config(c *explore.Chooser) (n2.EmuConfig, refamf.Config) {
 		e.OPc, e.OP = cr.op, ""
 		opc = x
 	}
-	bits := []int{24, 22, 27, 32}[c.Pick("gnb_bitlength", 4)]
+	bits := []int{24, 22, 27, 32, 23, 25, 26, 28, 29, 30, 31}[c.Pick("gnb_bitlength", 11)]
 	e.GnbBits = bits
-	id := []byte{0x00, 0x01, 0x02, 0x03}[:(bits+7)/8]
+	// default: every octet, and the used bits of the last octet at every length, carry set bits (a mask or shift error
+	// in the last partial octet shows); alternative: the shipped 00 01 02 (03). Octets stay below 0x80: a YAML "\xNN"
+	// escape denotes a Unicode character, not an octet.
+	id := []byte{0x12, 0x34, 0x56, 0x7b}[:(bits+7)/8]
 	if c.Pick("gnb_id-bytes", 2) == 1 {
-		id = []byte{0x7e, 0x01, 0x7f, 0x40}[:(bits+7)/8] // octets below 0x80: a YAML "\xNN" escape denotes a Unicode character, not an octet
+		id = []byte{0x00, 0x01, 0x02, 0x03}[:(bits+7)/8]
 	}
 	if bits%8 != 0 { // a configured id is written left aligned; unused bits zero
 		id = append([]byte{}, id...)
